@@ -343,6 +343,18 @@ class Run:
         if not ok:
             self.tie_breaks.append(("translator", "tools/translate.py", msg))
             return False
+        # runtime constants (computed with libm at start-up): driver and real library must agree bit-for-bit; then Gen/Runtime.lean
+        okd, outd = lake_build(["a5driver"])
+        if okd:
+            try:
+                exe = harness(self, "release")
+                rc, rout = sh([sys.executable, os.path.join(VERIF, "tools", "gen_runtime.py"), "--driver", DRIVER, "--harness", exe,
+                               "--out", os.path.join(LEAN, "A5", "Gen", "Runtime.lean")])
+                self.note(rout.strip().split("\n")[-1][:200])
+                if rc != 0:
+                    self.tie_breaks.append(("runtime-constants", "tools/gen_runtime.py (model vs library start-up constants)", rout[-1500:]))
+            except Abort:
+                pass
         ok, out = lake_build([f"A5.Props.{self.id}", "a5driver"])
         if not ok:
             # find which declaration failed
